@@ -75,6 +75,7 @@ type VC struct {
 	havocked      map[string]bool
 	usedContracts map[string]bool
 	assumedFacts  map[string]bool
+	callSiteFrame *Frame           // while a call-site clause is evaluated: the frame the call is made in (may be an inlined callee)
 	cbIndexCur    *Term            // inside an iterator callback's body: number of calls completed before this one
 	cbArgsCur     map[string]Bound // ... and the callback's arguments (cb0, cb1, ...)
 	constGlobals  map[*ssa.Global]Term
